@@ -7,6 +7,9 @@ use hutil::{arg_u64, hex, Rng};
 use darklua_core::nodes::{BinaryNumber, DecimalNumber, HexNumber, NumberExpression, StringExpression};
 use darklua_core::verif_hooks::generator_utils::write_number;
 use darklua_core::verif_hooks::generator_utils::write_string;
+use darklua_core::verif_hooks::generator_utils::write_interpolated_string_segment;
+use darklua_core::nodes::{Expression, InterpolatedStringExpression, InterpolationSegment, ReturnStatement, StringSegment, Block};
+use darklua_core::generator::{DenseLuaGenerator, LuaGenerator, ReadableLuaGenerator};
 
 fn emit(value: &[u8]) {
     let written = write_string(value);
@@ -189,6 +192,62 @@ fn main() {
             }
             for _ in 0..n {
                 emit(&structured(&mut rng));
+            }
+        }
+        "segments" => {
+            // `<hex value> <hex written segment> <hex dense text> <hex readable text>`: the literal part of an
+            // interpolated string, alone and followed by a hole
+            let seed = arg_u64(args, "--seed", 1);
+            let n = arg_u64(args, "--n", 1000);
+            let mut rng = Rng::new(seed ^ 0x5e6);
+            let mut values: Vec<Vec<u8>> = Vec::new();
+            for b in 0..=255u8 {
+                values.push(vec![b]);
+            }
+            for a in INTERESTING {
+                for b in INTERESTING {
+                    values.push(vec![*a, *b]);
+                }
+            }
+            // every byte without a named escape followed by every digit, and by a non-digit
+            for a in (0..=31u8).chain(127..=129u8).chain(250..=255u8) {
+                for d in b'0'..=b'9' {
+                    values.push(vec![b'<', a, d, b'>']);
+                    values.push(vec![a, d, d]);
+                }
+                values.push(vec![a, b'x']);
+                values.push(vec![a, b'{']);
+                values.push(vec![a, b'`']);
+            }
+            for _ in 0..n {
+                let mut v = structured(&mut rng);
+                if rng.chance(1, 2) {
+                    let at = rng.below(v.len() + 1);
+                    v.insert(at, *rng.pick(&[b'{', b'`', b'}', b'\\']));
+                }
+                values.push(v);
+            }
+            for value in values {
+                if value.is_empty() {
+                    continue;
+                }
+                let segment = StringSegment::from_value(value.clone());
+                let written = write_interpolated_string_segment(&segment);
+                let expression = InterpolatedStringExpression::empty()
+                    .with_segment(InterpolationSegment::String(StringSegment::from_value(value.clone())))
+                    .with_segment(Expression::identifier("v"));
+                let block = Block::default().with_last_statement(ReturnStatement::one(expression));
+                let mut dense = DenseLuaGenerator::default();
+                dense.write_block(&block);
+                let mut readable = ReadableLuaGenerator::default();
+                readable.write_block(&block);
+                println!(
+                    "{} {} {} {}",
+                    hex(&value),
+                    hex(written.as_bytes()),
+                    hex(dense.into_string().as_bytes()),
+                    hex(readable.into_string().as_bytes())
+                );
             }
         }
         "numbers" => {
